@@ -107,6 +107,33 @@ def min_normal_ratio(cs, b1, b2):
     return float(np.min(np.linalg.norm(g1 - g2, axis=1) / den))
 
 
+def cache_consistent(b):
+    """do the (cached) derived properties of b agree with a body rebuilt from its current
+    pose / vertices?  (express_in must invalidate every cache)"""
+    fresh = hc.RigidBody(np.copy(b.body2origin_), np.copy(b.vertices_), b.tetrahedra_, b.potentials_)
+    return dict(points=bool(np.array_equal(b.tetrahedra_points, fresh.tetrahedra_points)),
+                com=bool(np.array_equal(b.com, fresh.com)),
+                aabbs=bool(np.array_equal(b.aabbs, fresh.aabbs)),
+                root_aabb=bool(np.array_equal(b.aabb(), fresh.aabb())))
+
+
+def express(spec1, spec2, k=10):
+    """RigidBody.express_in observed directly: poses and a sample of the vertices before / after"""
+    b1, b2 = make_body(spec1), make_body(spec2)
+    _ = b1.com, b1.aabbs, b1.aabb_tree, b1.tetrahedra_points          # fill every cache first
+    n = len(b1.vertices_)
+    idx = sorted(set(list(range(min(k, n))) + [n - 1]))
+    before = L(b1.vertices_[idx])
+    old = L(b1.body2origin_)
+    b1.express_in(b2.body2origin_)
+    out = dict(old=old, new=L(b2.body2origin_), pose_after=L(b1.body2origin_), before=before, after=L(b1.vertices_[idx]),
+               caches=cache_consistent(b1), aliased=bool(b1.body2origin_ is b2.body2origin_))
+    # a second call with the same frame must leave the vertices (numerically) where they are
+    b1.express_in(b2.body2origin_)
+    out["after2"] = L(b1.vertices_[idx])
+    return out
+
+
 def broad(spec1, spec2):
     out = {}
     # broad phase, both ways, on identical (fresh) bodies
@@ -163,10 +190,15 @@ def run_case(c):
         out["repeat1"] = cf(b1, b2, ratio=False)
         out["repeat2"] = cf(b1, b2)
         out["b1_frame_after"] = L(b1.body2origin_)
+        out["caches_after_repeat"] = cache_consistent(b1)
         if c.get("b3") is not None:
             b3 = make_body(c["b3"])
             out["inter_b3"] = cf(b1, b3)
+            out["caches_after_b3"] = cache_consistent(b1)
             out["inter_back"] = cf(b1, b2)
+            out["caches_after_back"] = cache_consistent(b1)
+            out["b3_fresh"] = cf(make_body(s1), make_body(c["b3"]))
+        out["express"] = express(s1, s2)
         # internals on fresh bodies (must reproduce base bit for bit)
         out["internals"] = internals(make_body(s1), make_body(s2), max_rows)
         out["swap"] = cf(make_body(s2), make_body(s1))
